@@ -37,6 +37,8 @@ type nodePool struct {
 	length   int   // length of nodePool
 
 	pool byte_pool.IBytePool // reference to []byte pool
+
+	isFixedKeylen bool // every key must have exactly elemSize bytes
 }
 
 /*
@@ -63,6 +65,7 @@ func newNodePool(elemNum, elemSize int, isFixedKeylen bool) *nodePool {
 	np.capacity = elemNum
 	np.length = 0
 
+	np.isFixedKeylen = isFixedKeylen
 	if isFixedKeylen {
 		np.pool = byte_pool.NewFixedBytePool(elemNum, elemSize)
 	} else {
@@ -197,6 +200,9 @@ func (np *nodePool) elemSize() int {
 
 /* check whtether the key is legal for the set */
 func (np *nodePool) validateKey(key []byte) error {
+	if np.isFixedKeylen && len(key) != np.elemSize() {
+		return fmt.Errorf("element len[%d] != fixed key len[%d]", len(key), np.elemSize())
+	}
 	if len(key) <= np.elemSize() {
 		return nil
 	}
